@@ -40,7 +40,7 @@ def tier_timeout(tier):
 
 
 def select(prop, tier, only=None):
-    hs = [h for h in registry.load_all() if prop in h.props and h.in_tier(tier)]
+    hs = [h for h in registry.load_all() if prop in h.props and h.in_tier(tier, prop)]
     if only:
         hs = [h for h in hs if any(re.search(o, h.name) for o in only)]
     return hs
